@@ -10,22 +10,27 @@ PROP = 'C16'
 LEAN_MODULES = ['PMV.Props.C16']
 PARALLEL = True
 MANIFEST = {
-    'text': 'Kernel-checked theorems (PMV/Props/C16.lean) over an arbitrary commutative ring / field for the formulas as '
-            'the code writes them: dot/cross/outer/matrix product with the reshape-roll-multiply-sum axis bookkeeping equal '
-            'the index-sum (einsum) reference for every numerator rank, axis, length and denominator; perp+proj restores the '
-            'vector, perp is orthogonal, unit has norm 1 (every length); axis rotations and all 24 Euler conventions are '
-            'orthonormal with determinant +1 and overwrite every entry of the np.empty buffer; rotate/unrotate are mutually '
-            'inverse; quaternion product is associative and norm-multiplicative, reciprocal inverts, to_matrix3 is orthonormal, '
-            'det +1 and multiplicative with its sqrt(2)/|p| normalisation; inverse satisfies M*M^-1 = I wherever unmasked under '
-            'the LAPACK contract. Tied to /repo on every run: the same operands go to the real polymath code and to the compiled '
-            'exact-rational model (every float64 is a rational) and canonical outputs are diffed; float identities and the '
-            'inverse-trigonometric round trips are judged directly on the real objects against NumPy with tolerance 1e-10.',
+    'text': 'Kernel-checked theorems (PMV/Props/C16.lean, 76) over an arbitrary commutative ring / field for the formulas as '
+            'the code writes them: dot / cross / outer / matrix product with the reshape-roll-multiply-sum axis bookkeeping equal '
+            'the index-sum (einsum / Levi-Civita) reference for every numerator rank, axis, length and denominator; perp+proj '
+            'restores the vector, perp is orthogonal, unit has norm 1 (every length); axis rotations and all 24 Euler conventions '
+            'equal the product of the named axis rotations, are orthonormal with determinant +1 and overwrite the np.empty '
+            'buffer; Quaternion.from_euler equals the product of the three axis quaternions and to_matrix3(Quaternion.from_euler) '
+            '= Matrix3.from_euler; rotate/unrotate are mutually inverse; quaternion product is associative and norm-'
+            'multiplicative, reciprocal inverts, to_matrix3 is orthonormal, det +1 and multiplicative; Matrix3 -> Quaternion -> '
+            'Matrix3 is the identity on every branch of from_matrix3 and the branches cover SO(3) over ordered fields; '
+            'from_euler(to_euler(M)) = M for all 24 conventions away from and at exact gimbal lock; twovec, pole_rotation and '
+            'from_rotation give rotation matrices; spin is Rodrigues\' formula; inverse satisfies M*M^-1 = I wherever unmasked '
+            'under the LAPACK contract. Tied to /repo on every run: the same operands go to the real polymath code and to the '
+            'compiled exact-rational model (every float64 is a rational) and canonical outputs are diffed; float identities are '
+            'judged directly on the real objects against NumPy with tolerance 1e-10.',
     'design': 'DESIGN.md §3 C16, DESIGN.d/C16.md',
-    'technique': 'Lean 4 proof (ring identities, induction over axis lengths and index lists) + model/code correspondence '
-                 '+ NumPy residual oracle',
+    'technique': 'Lean 4 proof (ring identities, induction over axis lengths and index lists, linear_combination certificates '
+                 'over the ideal of SO(3)) + model/code correspondence + NumPy residual oracle',
     'note': 'Trusted: Lean kernel; hand-written model Model/Algebra.lean (checked against the code by the correspondence run); '
-            'sqrt, sin, cos, sign and LAPACK are parameters with stated contracts. T1-only (no theorem): Matrix3->Quaternion->'
-            'Matrix3, Euler round trips, sep, twovec, unitary, spin.',
+            'sqrt, sin, cos, arctan2, arcsin, sign and LAPACK are parameters with stated contracts. Not tied to the code by '
+            'correspondence (theorems about arithmetic cores only): sep, spin. No theorem: Matrix.unitary (iteration). Open known '
+            'findings: x_rotation sense (KF-C16-1), twovec with vectors parallel up to rounding (KF-C16-2).',
 }
 RULE = ('structured operands built from the repository\'s classes: every leading-shape pair of a table that over-represents '
         'rank 0, length-0/1 axes and broadcasting, every mask representation (bool, array, broadcast view), vector lengths '
@@ -37,7 +42,12 @@ ASSUMPTIONS = [
     'theorems are over commutative rings / fields; IEEE rounding is not modelled (the code runs float64): float identities '
     'are checked on the real objects with tolerance 1e-10',
     'np.sqrt, np.sin, np.cos, np.sign enter the model as parameters: the theorems assume n*n = norm_sq, s*s + c*c = 1, '
-    'sqrt2*sqrt2 = 2 and nothing else; sin(-x) = -sin(x), cos(-x) = cos(x) exactly',
+    'sqrt2*sqrt2 = 2 (sqrt as a function: sqrt(x^2+y^2)^2 = x^2+y^2, sqrt(|v|^2)^2 = |v|^2, sqrt 1 = 1) and nothing else; '
+    'sin(-x) = -sin(x), cos(-x) = cos(x) exactly',
+    'arctan2 contract (to_euler): sine and cosine of arctan2(y, x) are y/sqrt(x^2+y^2), x/sqrt(x^2+y^2), arctan2(0,0) = 0; '
+    'reduction mod 2 pi does not change them. arcsin / double-angle contract in sep_cosine. The driver evaluates sqrt inside '
+    'to_euler / twovec with a 1e-30 rational approximation; (0, -0.0) arguments of arctan2 do not occur for rotation matrices',
+    'from_matrix3_cover needs an ordered field; exact gimbal lock means the two pivot entries are exactly 0',
     'LAPACK contract: det(M) != 0 -> M * inv(M) = 1; np.linalg.det returns exactly 0.0 for the singular matrices the check uses',
     'quantised comparison (floor(v*2^16+1/2)) for results that involve a float division or a transcendental parameter: the '
     'model computes the same formula exactly from the same sqrt/sin/cos values',
